@@ -23,6 +23,8 @@ Inductive obs :=
 | OInvalidValue (ne : bool)
 | OInvalidKey (k : option str) (ne : bool)
 | ORaw (x : raw)
+| OLacksAttr          (* an object of one of the library's error classes WITHOUT an attribute its class promises (missing_json_key,
+                         value / expected_type, invalid_key): matches no outcome of the model, whose errors always carry them *)
 | OOtherExc.
 
 Definition raw_eqb (a b : raw) : bool :=
